@@ -9,7 +9,7 @@ import copy
 import random
 
 CLS_WORDS = ['Train', 'TrainData', 'TrainX', 'Data', 'DataX', 'Model', 'Eval', 'Feat', 'FeatTask', 'Raw', 'RawX', 'Split',
-             'Norm', 'N', 'NX', 'Agg', 'AggTask', 'Report', 'Rep', 'Load', 'LoadAll', 'A', 'AB', 'Ab']
+             'Norm', 'N', 'NX', 'Agg', 'AggTask', 'Report', 'Rep', 'Load', 'LoadAll', 'A', 'AB', 'Ab', 'Load_Data', 'Clean_Data_Task', 'Raw_X']
 # (the last groups are also task names: a task may be called like the group, or the namespace, of one of its inputs)
 GROUPS = [None, None, 'g', 'xg', 'g:h', 'h', 'gx', 'data', 'load:rep']
 NS_WORDS = ['n', 'xn', 'nx', 'm', 'xm', 'train', 'tr', 'xtr', 'valid', 'a', 'xa', 'ab']
@@ -54,6 +54,9 @@ def gen_value(rng, feat, depth=0, placeholders=None):
                 for _ in range(rng.randint(0, 6)))
     if placeholders and rng.random() < 0.5:
         s += '{' + rng.choice(placeholders) + '}' + rng.choice(['', '/t', '{UNDEF}'])
+    elif placeholders and rng.random() < 0.2:
+        # braces that are no known placeholder (regular expressions, templates) next to characters that repr() escapes or re-quotes
+        s += rng.choice(['\\d{4}-\\d{2}', "{year}: it's {n}", 'x{1,3}\n', '{"k": "v"}', "a'{}\\"])
     return s
 
 
@@ -975,6 +978,9 @@ def parts_spec(rng, feat=None):
             parts[pn]['main_part'] = True
         v = same_type_value(rng, v) if rng.random() < 0.8 else v       # (sometimes two parts are the same computation)
     fname = 'cfg/pipeline.' + rng.choice(['yaml', 'json'])
+    if (feat or {}).get('composing_part'):
+        # one more part that declares nothing itself and mounts every other part of its own file under the part's name
+        parts['all'] = {'tasks': [], 'values': {}, 'uses': [{'part': pn, 'as': pn} for pn in pnames]}
     spec = {'pkg': pkg, 'modules': [{'name': 'pipe', 'package': None, 'tasks': tasks}],
             'files': {fname: {'multi': True, 'parts': parts}},
             'context_files': {}, 'placeholders': None, 'fnames': [fname], 'free_ns_words': ['m', 'ab'], 'extra_mounts': []}
